@@ -23,6 +23,8 @@
     matcher_simulation real_matcher_flagfree real_matcher_lawful_abstraction nonpositional_paths_ok
     real_templates_okt real_filter_is_chain_of_rewrites real_template_rewrites_marked_elements
     marked_elements_are_xpath_matches real_positional_not_lawful real_positional_counts_per_closure
+    once_on_trees stage_counts_matches late_registration_applies_from_there_on lazy_eq_eager_late
+    select_is_path_select
 -/
 import Genshi.Lemmas.MatchSync
 import Genshi.Lemmas.MatchPipe
@@ -39,6 +41,9 @@ import Genshi.Model.MatchPath
 import Genshi.Model.MatchLazy
 import Genshi.Gen.MatchHints
 import Genshi.Lemmas.MatchRealSpec
+import Genshi.Lemmas.MatchOnceSpec
+import Genshi.Lemmas.MatchLate
+import Genshi.Lemmas.MatchSelect
 import Genshi.Props.C05
 namespace Genshi.Props.C12
 open Genshi Genshi.Match
@@ -646,5 +651,84 @@ example : (mkKids dACk.body true forestR (forestR.flatMap (patternMarks dACk.pat
   decide +kernel
 
 end RealExamples
+
+/-! ### `once` on trees -/
+
+/-- **`once` in the tree specification** (the property's clause "the once hint does not change the
+    output when at most one element matches", stated on trees).  Take a lawful template `t` without
+    the hint in slot `i` and a forest in which its matcher fires at most once — counted on the tree by
+    `countList`: the elements at which the matcher answers True in the state reached along their
+    ancestors, below a replaced element only when the template is recursive.  Then the stage of that
+    slot *with `once="true"` set* yields the tree rewrite `specList` of the unhinted template.
+    (`stage_is_spec_hits`: the ghost counter of the stage rises by exactly `countList`; then
+    `once_hint_irrelevant`'s simulation on the window of the stage.) -/
+theorem once_on_trees {σ : Type} (t : MT σ) (i : Nat) (hl : Lawful t) (ho : t.once = false) (hr : t.retired = false)
+    (f : Nat) (ns : List Node) (M : List (MT σ)) (r : List (MT σ) × List Event) (hns : okList ns = true)
+    (ht : M[i]? = some t) (h : run f i (some (i + 1)) (evItems (flattenList ns)) M = some r)
+    (hfew : countList t t.st [] ns ≤ 1) :
+    ∃ c', run f i (some (i + 1)) (evItems (flattenList ns)) (M.set i (onceAt t)) = some (c', specList t t.st [] ns) :=
+  once_stage_is_spec t i hl ho hr f ns M r hns ht h hfew
+
+/-- the stage replaces exactly the elements the tree specification counts -/
+theorem stage_counts_matches {σ : Type} (t : MT σ) (b : σ) (i : Nat) (hl : Lawful t) (ho : t.once = false)
+    (f : Nat) (ns : List Node) (anc : List Open) (M : List (MT σ)) (r : List (MT σ) × List Event) (k : Nat)
+    (hns : okList ns = true) (hslot : SlotAtH i t b anc k M)
+    (h : run f i (some (i + 1)) (evItems (flattenList ns)) M = some r) :
+    r.2 = specList t b anc ns ∧ SlotAtH i t b anc (k + countList t b anc ns) r.1 :=
+  stage_is_spec_hits t b i hl ho f ns anc M r k hns hslot h
+
+/-- non-vacuity: `a/b` fires once in `forest1`; with `once` the stage gives the same rewrite -/
+example : countList tAB {} [] forest1 = 1 := by decide
+example : (run 30 0 (some 1) (evItems (flattenList forest1)) [onceAt tAB]).map (·.2) = some (specList tAB {} [] forest1) := by
+  decide
+
+/-! ### registrations inside the stream -/
+
+/-- **A template registered later applies only from that point on.**  For a closed segment `A` of the
+    stream (which may itself contain registrations), a registration of `t` and any rest `B`: the filter
+    over `A · reg t · B` is the filter over `A` with the list as it stands — output and resulting list
+    do not depend on `t` or `B` — followed by the filter over `B` with `t` appended to that list. -/
+theorem late_registration_applies_from_there_on {σ : Type} (f s : Nat) (en : Option Nat) (A : List (Item σ)) (t : MT σ)
+    (B : List (Item σ)) (M : List (MT σ)) (r : List (MT σ) × List Event) (hcl : Closed (evs A))
+    (h : run f s en (A ++ .reg t :: B) M = some r) :
+    ∃ r1 r2, run f s en A M = some r1 ∧ run f s en B (r1.1 ++ [t]) = some r2 ∧ r = (r2.1, r1.2 ++ r2.2) :=
+  run_reg_split f s en A t B M r hcl h
+
+/-- **lazy_eq_eager with registrations inside the stream** (`Segmented`: the registrations sit between
+    closed, well-nested, registration-free segments — `py:match` declarations that are children of the
+    root, before or between the content).  The automaton honouring `buffer="false"` yields what the
+    eager filter yields, for templates registered before the stream and inside it alike. -/
+theorem lazy_eq_eager_late {σ : Type} (items : List (Item σ)) (hseg : Segmented items) (f : Nat) (mts : List (MT σ))
+    (r : List (MT σ) × List Event) (hok : ∀ t ∈ mts, LazyOK t) (hreg : ∀ t, Item.reg t ∈ items → LazyOK t)
+    (h : run f 0 none items mts = some r) (F : Nat) (hF : f ≤ F) :
+    runL F .idle items mts = some (.idle, r.1, r.2) :=
+  lazy_eq_eager_segmented items hseg f mts r hok hreg h F hF
+
+/-- non-vacuity: a declaration after some content (`<a/>` passes, the `<a/>` after the declaration is wrapped) -/
+def docLate : List (Item PSt) := [.ev (S 'a'), .ev (E 'a'), .reg tWrap, .ev (S 'a'), .ev (S 'b'), .ev (E 'b'), .ev (E 'a')]
+example : Segmented docLate := by
+  refine Segmented.cons [.ev (S 'a'), .ev (E 'a')] tWrap _ ?_ ?_ ?_ (Segmented.last _ ?_ ?_)
+  · intro t ht; simp at ht
+  · intro st; simp [evs, track, S, E]
+  · simp [Closed, evs, lvl, isStart, isEnd, S, E]
+  · intro t ht; simp at ht
+  · intro st; simp [evs, track, S, E]
+example : (run 30 0 none docLate []).map (·.2) = some [S 'a', E 'a', S 'w', S 'b', E 'b', E 'w'] := by decide
+
+/-! ### select() inside the body is `Path.select` of the path model -/
+
+open Genshi.Path in
+/-- **select() returns what the path model's `Path.select` returns** for the six body paths, on every
+    START/END/TEXT stream that closes no more than it opened — in particular on the content
+    `START · … · END` of a matched element.  By C05 `select_eq_xp_step` (single steps) and
+    `select_eq_xp_union` that selection is the XPath node set of the path with the matched element as
+    context node (`select_returns_parts` spells it out: the element itself / the children the node test accepts). -/
+theorem select_is_path_select (s : Sel) (es : List Event) (k : Nat) (hset : ∀ e ∈ es, isSET e = true)
+    (hl : lvl 0 es = some k) :
+    (select s es).map Path.Item.ev = Path.select s.paths [] [] es :=
+  select_eq_path_select s es k hset hl
+
+example : (select .elems [S 'a', S 'b', E 'b', T 'u', E 'a']).map Path.Item.ev
+    = Path.select (Sel.paths .elems) [] [] [S 'a', S 'b', E 'b', T 'u', E 'a'] := by decide +kernel
 
 end Genshi.Props.C12
